@@ -77,7 +77,7 @@ private theorem quiet_cfi (s : SchemaD) (fx : Fixes) (r : Rule)
     (fun n ti rs hn _ => by rw [hE n ti rs hn]; simp)
     (fun n ti rs _ _ => by rw [hL]; simp)
 
-private theorem leave_id (s : SchemaD) (fx : Fixes) (r : Rule)
+theorem leaveRule_id (s : SchemaD) (fx : Fixes) (r : Rule)
     (hr : r ≠ .noUnusedFragments ∧ r ≠ .noFragmentCycles ∧ r ≠ .noUndefinedVariables ∧ r ≠ .noUnusedVariables ∧
       r ≠ .variablesInAllowedPosition ∧ r ≠ .providedRequiredArguments ∧ r ≠ .uniqueVariableNames ∧
       r ≠ .knownDirectives ∧ r ≠ .uniqueInputFieldNames) :
@@ -90,7 +90,7 @@ private theorem leave_id (s : SchemaD) (fx : Fixes) (r : Rule)
 /-- **5.1.1 Executable definitions** -/
 theorem rule_executable_definitions_iff (s : SchemaD) (fx : Fixes) (d : Doc) :
     Silent s fx .executableDefinitions d ↔ Spec.executableDefinitions d := by
-  have hL := leave_id s fx .executableDefinitions (by decide)
+  have hL := leaveRule_id s fx .executableDefinitions (by decide)
   have hq := quiet_cfi s fx .executableDefinitions
     (fun n ti rs hn => by cases n <;> simp_all [enterRule, Node.isDoc]) hL
   have hspec : Spec.executableDefinitions d ↔ (d.defs.filter fun x => !x.isExecutable).length = 0 := by
@@ -116,7 +116,7 @@ theorem rule_executable_definitions_iff (s : SchemaD) (fx : Fixes) (d : Doc) :
 /-- **5.2.2.1 Lone anonymous operation** -/
 theorem rule_lone_anonymous_operation_iff (s : SchemaD) (fx : Fixes) (d : Doc) :
     Silent s fx .loneAnonymousOperation d ↔ Spec.loneAnonymousOperation d := by
-  have hL := leave_id s fx .loneAnonymousOperation (by decide)
+  have hL := leaveRule_id s fx .loneAnonymousOperation (by decide)
   have hq := quiet_cfi s fx .loneAnonymousOperation
     (fun n ti rs hn => by cases n <;> simp_all [enterRule, Node.isDoc]) hL
   have hanon : (∃ x ∈ d.defs, ∃ k vs ds i ss, x = Def.op k none vs ds i ss) ↔
@@ -178,7 +178,7 @@ def fKnownFrags (K : List String) : Node → Nat
 /-- **5.5.2.1 Fragment spread target defined** -/
 theorem rule_known_fragment_names_iff (s : SchemaD) (fx : Fixes) (d : Doc) :
     Silent s fx .knownFragmentNames d ↔ Spec.knownFragmentNames d := by
-  have hL := leave_id s fx .knownFragmentNames (by decide)
+  have hL := leaveRule_id s fx .knownFragmentNames (by decide)
   have hc : CFI ⟨s, fx, [.knownFragmentNames]⟩ Node.isDoc (fun st => st.rs.knownFrags = Spec.fragNames d)
       (fKnownFrags (Spec.fragNames d)) (fun _ => 0) :=
     cfi_of s fx .knownFragmentNames Node.isDoc (fun rs => rs.knownFrags = Spec.fragNames d) _ _
